@@ -178,6 +178,13 @@ func (g *XGen) leaf() reflect.Type {
 				if o.TUv && r.Chance(1, 4) {
 					return tTUv
 				}
+				if o.Slices && r.Chance(1, 4) {
+					// a slice / array of TextUnmarshaler structs (never recursed into)
+					if r.Chance(1, 3) {
+						return reflect.ArrayOf(2, tTUp)
+					}
+					return reflect.SliceOf(tTUp)
+				}
 				return tTUp
 			}
 		case 10:
